@@ -181,6 +181,9 @@ func writeCorpus(dir string) {
 		"known K16a: DECLINE naming another address than the leased one drops the lease but pool.allocated[mac] keeps the leased address")
 	w("k16b-release-offered-only", "dhcp", DCase{Cfg: full, Ops: []DOp{{K: "disc", C: 0}, {K: "rel", C: 0}}},
 		"known K16b: RELEASE from a client that was only offered an address: the offered address stays allocated")
+	w("k16f-shared-lease-two-stops", "dhcp", DCase{Cfg: full, Ops: append(append([]DOp{}, est...), DOp{K: "disc", C: 1, Cid: 1, Relay: true},
+		DOp{K: "req", C: 1, Cid: 1, Relay: true}, DOp{K: "rel", C: 1}, DOp{K: "rel", C: 0})},
+		"known K16f: a second MAC is ACKed on the first one's lease through the circuit-ID index (C02 K02a); ending both sends two Stops for one Start")
 	w("f16a-decline-keeps-nat-qos-acct", "dhcp", DCase{Cfg: full, Ops: append(append([]DOp{}, est...), DOp{K: "decl", C: 0}, DOp{K: "decl", C: 0})},
 		"fixed 81d6b2b: DECLINE left NAT block, QoS policy and the accounting session (regression)")
 	w("f16a-expiry-keeps-nat-qos-cid-acct", "dhcp", DCase{Cfg: full, Ops: append(append([]DOp{}, est...), DOp{K: "age", D: 4200}, DOp{K: "tick"}, DOp{K: "tick"},
